@@ -30,6 +30,8 @@ def run(rep, tier):
     rep.rule("R14.4", "KMCCalculator::Promotetime: dt = -ln(u)/k with u = 1 - uniform[0,1)")
     rep.rule("R14.5", "selection tree: every node flagged isOnLastLevel has both leaves assigned; inner nodes combine the two smallest and store h1 left / h2 right; "
                       "probability shifting, descent and leaf choice all use 'p > threshold -> left'")
+    rep.rule("R14.7", "GNode::MakeHuffTree rebuilds the selection tree from the current event list: setEvents(&events_) and makeTree() run on every call, or - if a "
+                      "cached-tree flag guards them - every member function that changes events_ resets that flag (InitEscapeRate and the tree must see the same events)")
     rep.rule("R14.6", "QMPair persistence keeps the per-carrier tables: the record field WriteData fills from M.getValue(X) is the field ReadData passes to "
                       "M.setValue(., X), for M in {lambda0_, Jeff2_} and all four carrier kinds (the rate engine reads Jeff2 and lambda0 by carrier kind)")
     units = [front.repo("xtp/src/libxtp/" + u) for u in ("rate_engine.cc", "gnode.cc", "kmccalculator.cc", "qmpair.cc")]
@@ -358,6 +360,41 @@ def run(rep, tier):
             break
     rep.check(okm, "R14.5", "orientation|thresholds", "threshold of a node = cumulative probability of its right part (last level: minus the left leaf)",
               "moveProbabilitiesFromRightSubtreesOneLevelUp: " + whym, mv.loc(), sample=True)
+    # ---------------------------------------------------------------- R14.7
+    mh = F.one(X + "GNode::MakeHuffTree")
+    rep.analysed(mh)
+    gh = CFG(mh)
+    mts = [n for n in mh.walk() if n.get("k") == "mcall" and (n.get("callee") or "").endswith("::makeTree") and n["id"] in gh.where]
+    ses = [n for n in mh.walk() if n.get("k") == "mcall" and (n.get("callee") or "").endswith("::setEvents") and n["id"] in gh.where]
+    rep.floor("R14.7", len(mts) + len(ses), 2, "setEvents / makeTree calls in GNode::MakeHuffTree")
+    ok_arg = all("events_" in show(n["args"][0]) for n in ses if n.get("args"))
+    exits_ = [b for b in gh.exit_blocks(normal=True) if b in gh.reachable_blocks()]
+    always = all(any(gh.where[n["id"]][0] == b or gh.dominates_block(gh.where[n["id"]][0], b) for n in grp) for b in exits_ for grp in (mts, ses))
+    why = ""
+    if not always:
+        # which member flags gate the rebuild, and which event-list mutators forget to reset them
+        flags = set()
+        for n in mh.walk():
+            if n.get("k") == "member" and n.get("fname") and n.get("fname") != "events_" and gh.cond_blocks(n["id"]) and any(
+                    gh.edge_required(n["id"], v, mts[0]["id"]) is True for v in (True, False)):
+                flags.add(n["fname"])
+        muts = []
+        for f_ in F.funcs:
+            if not f_.qname.startswith(X + "GNode::") or f_.j["template"] == "pattern":
+                continue
+            ch = [n for n in f_.walk() if n.get("k") == "mcall" and re.search(r"::(push_back|emplace_back|clear|erase|pop_back|resize|insert|assign|operator=)$", n.get("callee") or "")
+                  and show(n.get("obj") or {}).replace("this->", "") == "events_"]
+            if not ch:
+                continue
+            resets = {show(n["lhs"]).replace("this->", "") for n in f_.walk() if n.get("k") in ("assign", "binop") and n.get("op") == "=" and show(n["rhs"]) in ("false", "0")}
+            if not flags or not flags <= resets:
+                muts.append(f_.qname.split("::")[-1])
+        why = ("the rebuild is skipped on some path (guarded by %s) and %s change(s) events_ without resetting the guard: after build -> %s -> InitEscapeRate -> MakeHuffTree the tree is "
+               "stale - the new event is never selected and the other events are selected with rate/(escape rate - new rate)" % (sorted(flags) or "a condition", sorted(set(muts)) or "no recognised mutator", (sorted(set(muts)) or ["?"])[0])) \
+            if (muts or not flags) else ""
+    rep.check(ok_arg and (always or not why), "R14.7", "tree-rebuilt-from-current-events", "setEvents(&events_) and makeTree() on every call of MakeHuffTree" if always else "cached tree: every mutator of events_ resets the flag",
+              "GNode::MakeHuffTree: " + (why or "setEvents is not given &events_"), mh.loc(), sample=True)
+
     # ---------------------------------------------------------------- R14.6
     wd = F.one(X + "QMPair::WriteData")
     rd = F.one(X + "QMPair::ReadData")
